@@ -194,6 +194,8 @@ def shard_entry(argv):
     res = {"crashed": None}
     cov = None
     anchors = mod.META.get("anchors")
+    if os.environ.get("VERIF_LINES_OUT"):  # tools/cov_union.py: line coverage of the whole library, not only of the anchored files
+        anchors = sorted(set(anchors or []) | {os.path.relpath(os.path.join(dp, f), REPO) for dp, _, fs in os.walk(os.path.join(REPO, "func_adl")) for f in fs if f.endswith(".py")})
     if anchors and os.environ.get("VERIF_LINECOV", "1") == "1":
         from .hooks import LineCov
 
@@ -407,6 +409,10 @@ def finish(prop, tier, seed, meta, results, inconclusive, wall):
         "exhaustive": bool(meta.get("exhaustive", {}).get(tier, False)) and not counters.get("stopped-by-time-budget") and not inconclusive,
     }
     cov.update(notes)
+    if lines_hit and os.environ.get("VERIF_LINES_OUT"):
+        os.makedirs(os.environ["VERIF_LINES_OUT"], exist_ok=True)
+        with open(os.path.join(os.environ["VERIF_LINES_OUT"], f"{prop}.lines.json"), "w") as f:
+            json.dump({k: sorted(v) for k, v in lines_hit.items()}, f)
     if lines_hit:
         cov["anchored_source_lines_executed"] = {f: len(v) for f, v in sorted(lines_hit.items())}
     ev = {
